@@ -339,12 +339,35 @@ theorem outputPrefix_noPanic (prefixes : List (Vid × Option String)) (stack : L
       exact hnone p hp (by simp [hpv])
     · exact noPanic_bind (ih fun w hw => h w (List.mem_cons_of_mem _ hw)) fun _ _ => by simp
 
+/-- The top of `component_outputs_stack`: the output map of the component being built. -/
+def St.topMap (st : St) : List (String × FieldRefM) := st.outStack.getLast?.getD []
+
+/-- Between `st` and `st'` only the top output map changed, and every entry added to it refers
+to a field satisfying `P`. -/
+def TopNew (st st' : St) (P : FieldRefM → Prop) : Prop :=
+  st'.outStack.dropLast = st.outStack.dropLast ∧ ∀ o ∈ st'.topMap, o ∈ st.topMap ∨ P o.2
+
+theorem TopNew.of_eq {st st' : St} (h : st'.outStack = st.outStack) (P : FieldRefM → Prop) :
+    TopNew st st' P := ⟨by rw [h], fun o ho => Or.inl (by simpa [St.topMap, h] using ho)⟩
+
+theorem TopNew.refl (st : St) (P : FieldRefM → Prop) : TopNew st st P := TopNew.of_eq rfl P
+
+theorem TopNew.trans {a b c : St} {P Q R : FieldRefM → Prop} (h1 : TopNew a b P) (h2 : TopNew b c Q)
+    (hp : ∀ f, P f → R f) (hq : ∀ f, Q f → R f) : TopNew a c R := by
+  refine ⟨h2.1.trans h1.1, fun o ho => ?_⟩
+  rcases h2.2 o ho with h | h
+  · rcases h1.2 o h with h' | h'
+    · exact Or.inl h'
+    · exact Or.inr (hp _ h')
+  · exact Or.inr (hq _ h)
+
 /-- The effect of registering one output. -/
 structure St.Registered (st st' : St) (ref : FieldRefM) : Prop where
   inv : st'.Inv
   step : St.Step st st' True
   outLen : st'.outStack.length = st.outStack.length
   outputs : ∃ n, st'.globalOutputs = st.globalOutputs ++ [(n, ref)]
+  top : TopNew st st' (· = ref)
 
 theorem registerOutput_sat {st : St} (h : st.Inv) (hout : 0 < st.outStack.length) (name : String)
     (ref : FieldRefM) :
@@ -360,8 +383,19 @@ theorem registerOutput_sat {st : St} (h : st.Inv) (hout : 0 < st.outStack.length
     have hinv : St.Inv { st with outStack := st.outStack.dropLast ++ [top ++ [(name, ref)]],
                                  globalOutputs := st.globalOutputs ++ [(name, ref)] } :=
       ⟨h.path_ne, h.imported_keys, h.tags_path_ne, h.prefixes_lt, h.stack_prefixed⟩
-    exact ⟨hinv, ⟨hinv, rfl, Nat.le_refl _, Nat.le_refl _, ⟨[], by simp, fun _ => rfl⟩,
-      Nat.le_of_eq hlen.symm, fun _ => hlen, fun _ hx => hx⟩, hlen, ⟨name, rfl⟩⟩
+    refine ⟨hinv, ⟨hinv, rfl, Nat.le_refl _, Nat.le_refl _, ⟨[], by simp, fun _ => rfl⟩,
+      Nat.le_of_eq hlen.symm, fun _ => hlen, fun _ hx => hx⟩, hlen, ⟨name, rfl⟩, ?_, ?_⟩
+    · show (st.outStack.dropLast ++ [top ++ [(name, ref)]]).dropLast = st.outStack.dropLast
+      simp
+    · intro o ho
+      have htop : st.topMap = top := by
+        rename_i htop'
+        simp [St.topMap, htop']
+      have : o ∈ top ++ [(name, ref)] := by
+        simpa [St.topMap] using ho
+      rcases List.mem_append.mp this with h | h
+      · exact Or.inl (htop ▸ h)
+      · simp at h; subst h; exact Or.inr rfl
 
 theorem registerLocalOutput_sat {st : St} (h : st.Inv) (hout : 0 < st.outStack.length)
     (localName suffix : String) (ref : FieldRefM) :
